@@ -264,7 +264,32 @@ func oneAppendPerIteration(f *ssa.Function) (bool, string) {
 	}
 	// the index is the range index: phi(-1, idx)+1
 	if bo, ok := idx.(*ssa.BinOp); !ok || bo.Op != token.ADD {
-		return false, "input is not traversed by a range loop"
+		// or a counting loop over every index: i := 0; i < len(in); i++
+		ph, isPhi := idx.(*ssa.Phi)
+		full := false
+		if isPhi {
+			step, okStep := phiStep(ph)
+			fromZero := false
+			for _, e := range ph.Edges {
+				if k, ok := constInt(e); ok && k == 0 {
+					fromZero = true
+				}
+			}
+			if okStep && step == 1 && fromZero && len(ph.Block().Instrs) > 0 {
+				if ifi, ok := ph.Block().Instrs[len(ph.Block().Instrs)-1].(*ssa.If); ok {
+					if cmp, ok := ifi.Cond.(*ssa.BinOp); ok && cmp.Op == token.LSS && cmp.X == ssa.Value(ph) {
+						if call, ok := cmp.Y.(*ssa.Call); ok {
+							if b, ok := call.Call.Value.(*ssa.Builtin); ok && b.Name() == "len" && call.Call.Args[0] == ssa.Value(in) {
+								full = true
+							}
+						}
+					}
+				}
+			}
+		}
+		if !full {
+			return false, "input is not traversed by a range loop (or by a counting loop over 0..len-1)"
+		}
 	}
 	// every path through the body passes the append
 	head := acc.Block()
@@ -437,7 +462,7 @@ func c02Cause(c *Ctx, r *Report) {
 	f := c.fn("internal/sbi/processor", "Processor.CloseCDR")
 	key := fnKey(f)
 	partial := paramByName(f, "partial")
-	n := 0
+	n, nPartial, nNormal := 0, 0, 0
 	eachInstr(f, func(_ *ssa.BasicBlock, _ int, ins ssa.Instruction) {
 		st, ok := ins.(*ssa.Store)
 		if !ok {
@@ -448,34 +473,50 @@ func c02Cause(c *Ctx, r *Report) {
 		if !ok || fieldName(fa) != "Value" || !typeIs(fa.X.Type(), cdrTypePath, "CauseForRecClosing") {
 			return
 		}
-		n++
-		v, isC := constInt(st.Val)
-		// which edge of `partial`?
-		onPartial, onNormal := false, false
-		for _, b := range f.Blocks {
-			if len(b.Instrs) == 0 {
-				continue
-			}
-			if ifi, ok := b.Instrs[len(b.Instrs)-1].(*ssa.If); ok && ifi.Cond == ssa.Value(partial) {
-				if edgeDominates(b, b.Succs[0], st.Block()) {
+		for _, lf := range leavesOf(st.Val) {
+			n++
+			v, isC := constInt(lf.val)
+			// which edge of `partial`?
+			onPartial, onNormal := false, false
+			for _, b := range f.Blocks {
+				if len(b.Instrs) == 0 || len(b.Succs) != 2 {
+					continue
+				}
+				ifi, ok := b.Instrs[len(b.Instrs)-1].(*ssa.If)
+				if !ok || ifi.Cond != ssa.Value(partial) {
+					continue
+				}
+				on := func(i int) bool {
+					if lf.from == nil {
+						return edgeDominates(b, b.Succs[i], st.Block())
+					}
+					// the value arrives at the merge over the edge from->at
+					if lf.from == b {
+						return lf.at == b.Succs[i] && b.Succs[0] != b.Succs[1]
+					}
+					return edgeDominates(b, b.Succs[i], lf.from)
+				}
+				if on(0) {
 					onPartial = true
 				}
-				if edgeDominates(b, b.Succs[1], st.Block()) {
+				if on(1) {
 					onNormal = true
 				}
 			}
-		}
-		k := fmt.Sprintf("%s|cause #%d", key, n)
-		switch {
-		case onPartial:
-			r.check(isC && v == 1, "C02.R4", k, posOf(c, st), "partial edge: cause 1 (partialRecord)", fmt.Sprintf("on the partial-record edge the cause for closing is %d, TS 32.298 partialRecord is 1", v))
-		case onNormal:
-			r.check(isC && v == 0, "C02.R4", k, posOf(c, st), "normal edge: cause 0 (normalRelease)", fmt.Sprintf("on the normal-release edge the cause for closing is %d, TS 32.298 normalRelease is 0", v))
-		default:
-			r.viol("C02.R4", k, posOf(c, st), "cause for closing assigned outside the partial / normal branches")
+			k := fmt.Sprintf("%s|cause #%d", key, n)
+			switch {
+			case onPartial:
+				nPartial++
+				r.check(isC && v == 1, "C02.R4", k, posOf(c, st), "partial edge: cause 1 (partialRecord)", fmt.Sprintf("on the partial-record edge the cause for closing is %s, TS 32.298 partialRecord is 1", describe(lf.val)))
+			case onNormal:
+				nNormal++
+				r.check(isC && v == 0, "C02.R4", k, posOf(c, st), "normal edge: cause 0 (normalRelease)", fmt.Sprintf("on the normal-release edge the cause for closing is %s, TS 32.298 normalRelease is 0", describe(lf.val)))
+			default:
+				r.viol("C02.R4", k, posOf(c, st), "cause for closing assigned outside the partial / normal branches")
+			}
 		}
 	})
-	if n < 2 {
+	if nPartial == 0 || nNormal == 0 {
 		r.viol("C02.R4", key+"|causes", c.rel(f.Pos()), "expected a cause for the partial and for the normal edge")
 	}
 }
